@@ -529,6 +529,11 @@ class ContainerValue:
             "list_value": ListValue,
             "map_or_list_value": MapOrListValue,
         }
+        if not isinstance(spec, dict):
+            raise TypeError(
+                f"Container item specification must be a mapping, but found {spec!r}."
+            )
+        spec = dict(spec)  # keys are popped below; leave the caller's mapping alone
         container_type = spec.pop("type", "map_or_list_value")
         try:
             cls = CLS_LOOKUP[container_type]
